@@ -181,6 +181,8 @@ def shape_of(v, frame_shape=None):
     if isinstance(v, tuple):
         return ("t",) + tuple(shape_of(x, frame_shape) for x in v)
     if isinstance(v, SList):
+        if v.elem == "objs":
+            return ("LO", tuple(const_key(x) for x in v.slots[:v.length]))
         return ("L", v.cap, v.elem)
     if isinstance(v, SDict):
         return ("D", v.K, v.elem)
@@ -191,6 +193,8 @@ def shape_of(v, frame_shape=None):
     if isinstance(v, RangeIter):
         return ("range", v.step)
     if isinstance(v, ListIter):
+        if isinstance(v.lst, SList) and v.lst.elem == "objs":
+            return ("loiter", shape_of(v.lst, frame_shape), v.idx)
         if isinstance(v.lst, (SList, tuple)):
             return ("liter", shape_of(v.lst, frame_shape))
         return ("oliter", id(v.lst), v.idx)
